@@ -11,7 +11,7 @@
    This file (compiled on every run) re-checks their axiom base, runs the
    executable model on the reproducers of DESIGN section 6 (F3, F4), and proves
    the switch-replacement statements over the rationals. *)
-Require Import LT.FieldSec LT.Circuit LT.RewriteEquiv LT.RewriteBranch LT.RewriteMore LT.RewriteModel LT.RewriteSem LT.RewriteCorr.
+Require Import LT.FieldSec LT.Circuit LT.QcI LT.RewriteEquiv LT.RewriteBranch LT.RewriteMore LT.RewriteModel LT.RewriteKeyed LT.RewriteSem LT.RewriteCorr LT.RewriteCorrI LT.RewriteRenum.
 From Coq Require Import Arith.
 Local Open Scope nat_scope.
 
@@ -58,6 +58,20 @@ Definition names_ics (r : res (sstate QcF)) : list (name * Qc * option Qc) :=
 Example F4_model : names_ics (simplifyQ unchanged_tree f4_args f4_net f4_trace) = [(NNew TC 1, qc 8 1, Some (qc 8 1))].
 Proof. vm_compute. reflexivity. Qed.
 Example F4_repaired : names_ics (simplifyQ repaired f4_args f4_net f4_trace) = [(NNew TC 1, qc 8 1, Some (qc 4 1))].
+Proof. vm_compute. reflexivity. Qed.
+
+(* ---- ac_model(omega) = s_model(j omega) over the Gaussian rationals ------------------ *)
+(* C1 2 3 3 4 at omega = 3/2: Z = 1/(j omega C) = -2j/9 through a dummy node, source v0/(j omega) = -8j/3 *)
+Example ac_model_C_with_ic :
+  map (fun e => (ename e, enodes e, eval e))
+      (@s_model QcIF qci_eqb (qi 0 1 3 2) (qi 5 3 0 1) KwS [ElemI (NOrig 0) TC [2; 3] KwNone (qi 3 1 0 1) (Some (qi 4 1 0 1))] 9) =
+  [(NVar 0 0, [2; 9], qi 0 1 (-2) 9); (NVar 1 0, [9; 3], qi 0 1 (-8) 3)].
+Proof. vm_compute. reflexivity. Qed.
+(* the model of augment_node_map on the lead's example: a -> 2 leaves 1 and 3 for b and c *)
+Example augment_partial_small :
+  augment [(NdNum 0, [NdNum 0]); (NdSym 0, [NdSym 0]); (NdSym 1, [NdSym 1]); (NdSym 2, [NdSym 2])]
+          (fun x => index_of_n x [NdNum 0; NdSym 0; NdSym 1; NdSym 2]) [(NdSym 0, NdNum 2)] =
+  Ok [(NdSym 0, NdNum 2); (NdNum 0, NdNum 0); (NdSym 1, NdNum 1); (NdSym 2, NdNum 3)].
 Proof. vm_compute. reflexivity. Qed.
 
 (* ---- switch replacement ------------------------------------------------------- *)
@@ -130,6 +144,15 @@ Print Assumptions do_combine_shape.
 Print Assumptions s_model_L_source_refuted.
 Print Assumptions series_raw_nodes.
 Print Assumptions walk_wwalk.
+Print Assumptions series_rule_repaired.
+Print Assumptions parallel_rule_repaired.
+Print Assumptions series_rule_unchanged.
+Print Assumptions parallel_rule_unchanged.
+Print Assumptions series_rule_violated.
+Print Assumptions parallel_rule_violated.
+Print Assumptions terminals_at_In.
+Print Assumptions ac_model_C_with_ic.
+Print Assumptions augment_partial_small.
 Print Assumptions switch_replace_noevent.
 Print Assumptions switch_before_refuted.
 Print Assumptions F3_model_order_V1_V2.
